@@ -1,0 +1,65 @@
+//go:build verif
+
+// Contracts for deductive verification (comment-only; read by /verif/govc, never compiled into the product).
+
+package event
+
+// ---------------------------------------------------------------------------------------------------------
+// C19: the buffer between producers and the broker is a FIFO: Push appends at the end, PopMultiple takes a prefix of at
+// most n elements in order and leaves the rest in order.
+//@ func (this *FifoBuffer[T]) Push(value T)
+//@   property C19
+//@   modifies this.buffer
+//@   requires this != nil
+//@   ensures len(this.buffer) == old(len(this.buffer)) + 1
+//@   ensures this.buffer[old(len(this.buffer))] == value
+//@   ensures forall i int :: 0 <= i && i < old(len(this.buffer)) ==> this.buffer[i] == old(this.buffer[i])
+
+//   The batch bound holds always. The prefix/remainder clauses are the sequential core: they are stated for a buffer that
+//   is not empty on entry, so that PopMultiple does not wait (what happens across a Wait - other goroutines pushing - is
+//   interference this technique does not decide).
+//@ func (this *FifoBuffer[T]) PopMultiple(numberToPop uint) (result []T)
+//@   property C19
+//@   requires this != nil
+//@   loop 1 invariant old(len(this.buffer)) > 0 ==> this.buffer == old(this.buffer)
+//@   loop 1 invariant old(len(this.buffer)) > 0 ==> forall i int :: 0 <= i && i < len(this.buffer) ==> this.buffer[i] == old(this.buffer[i])
+//@   ensures len(result) <= numberToPop
+//@   ensures old(len(this.buffer)) > 0 ==> len(result) <= old(len(this.buffer)) && len(result) > 0 || numberToPop == 0
+//@   ensures old(len(this.buffer)) > 0 ==> forall i int :: 0 <= i && i < len(result) ==> result[i] == old(this.buffer[i])
+//@   ensures old(len(this.buffer)) > 0 ==> len(this.buffer) == old(len(this.buffer)) - len(result)
+//@   ensures old(len(this.buffer)) > 0 ==> forall i int :: 0 <= i && i < len(this.buffer) ==> this.buffer[i] == old(this.buffer[i + len(result)])
+
+//@ func (this *FifoBuffer[T]) Length() (n int)
+//@   property C19
+//@   pure
+//@   requires this != nil
+//@   ensures n == len(this.buffer) && n >= 0
+
+// writingLoop: every popped batch goes to the broker exactly once, in pop order, at most 100 messages at a time; the loop
+// declares itself finished (WaitGroup.Done) only after it has seen the buffer empty AFTER the batching loop signalled
+// that it pushed its last message - every event accepted before shutdown is handed to the broker.
+//@ func (w *KafkaWriter) writingLoop()
+//@   property C19
+//@   ghostvar drained bool = false
+//@   on aftercall .Length : drained = (result == 0)
+//@   on call .PopMultiple : assert arg1 == 100 ; drained = false
+//@   on call (*sync.WaitGroup).Done : assert drained
+
+//@ func (w *KafkaWriter) writeBatch(messagesToSend []kafka.Message)
+//@   property C19
+//@   ghostvar wrote int = 0
+//@   on call field.KafkaWriter.writeFunction : assert arg0 == messagesToSend && len(arg0) > 0 && wrote == 0 ; wrote = 1
+//@   ensures len(messagesToSend) > 0 ==> wrote == 1
+
+// batchingLoop: every message received from the producers' channel is pushed, in receive order, before the next one is
+// received; the done signal follows the last push.
+//@ func (w *KafkaWriter) batchingLoop()
+//@   property C19
+//@   ghostvar pendingPush bool = false
+//@   ghostvar done bool = false
+//@   ghostvar last kafka.Message = noMessage()
+//@   on recv * : assert !done ; last = value ; pendingPush = true
+//@   on call .Push : assert pendingPush && !done && arg1 == last ; pendingPush = false
+//@   on send * : done = true
+//@   on call (*sync.WaitGroup).Done : assert done
+//@ ghost func noMessage() kafka.Message
